@@ -34,10 +34,11 @@ def mk_data_fn(fid):
 
 NEEDS = {"u_f": ["u", "f"], "ku_x": ["u", "x", "kappa"], "ux_t": ["u", "x", "t"], "echo": ["u", "x", "t"],
          "echofg": ["u", "x", "t", "f", "g"], "vec": ["u", "f", "x"], "per0": ["u_left", "u_right"],
-         "per": ["u_left", "u_right", "f_left", "f_right"]}
+         "per": ["u_left", "u_right", "f_left", "f_right"], "per_d": ["u_left", "u_right", "t", "x_left"]}
 BODY = {"u_f": "u - f", "ku_x": "kappa * u - x", "ux_t": "_grad(u, x) + t", "echo": "2 * u + 3 * x + 5 * t",
         "echofg": "2 * u + 3 * x + 5 * t + 7 * f + 11 * g", "vec": "_torch.cat([u - f, u + x], dim=1)",
-        "per0": "u_left - u_right", "per": "u_left - u_right + f_left - 2 * f_right"}
+        "per0": "u_left - u_right", "per": "u_left - u_right + f_left - 2 * f_right",
+        "per_d": "_grad(u_left, t) + 2 * _grad(u_right, t) + 5 * _grad(u_left, x_left) + 0 * t"}
 
 
 def mk_res(kind, rev, log):
